@@ -154,4 +154,109 @@ def gen_change(tier, rng):
                            args={'conn': conn, 'specifier': f'{name}:target_limits', 'data': pair}, ghosts={'driver_writes': writes, 'HOOK_REFUSES': _hook_refuses})
 
 
-GENS = {'Module.checkLimits': gen_checkLimits, 'Dispatcher.handle_change': gen_change}
+def _struct_classes():
+    from frappy.core import FloatRange, Module, Parameter
+    from frappy.extparams import StructParam
+
+    def members():
+        return dict(p=Parameter('p', FloatRange()), i=Parameter('i', FloatRange()), d=Parameter('d', FloatRange()))
+
+    class Combined(Module):
+        """combined read/write methods for the struct"""
+        ctrlpars = StructParam('s', members(), 'pid_', readonly=False)
+        _store = {'p': 0.0, 'i': 0.0, 'd': 0.0}
+        fail = None
+
+        def read_ctrlpars(self):
+            if self.fail == 'read':
+                raise ValueError('scripted read failure')
+            return dict(self._store)
+
+        def write_ctrlpars(self, value):
+            if self.fail == 'write':
+                raise ValueError('scripted write failure')
+            self._store = dict(value)
+            return self.read_ctrlpars()
+
+    class PerMember(Module):
+        """generated struct functions: read/write methods per member"""
+        ctrlpars = StructParam('s', members(), readonly=False)
+        _vals = None
+        fail = None
+
+        def _rd(self, k):
+            if self.fail == ('read', k):
+                raise ValueError('scripted read failure')
+            return (self._vals or {}).get(k, 0.0)
+
+        def _wr(self, k, v):
+            if self.fail == ('write', k):
+                raise ValueError('scripted write failure')
+            self._vals = dict(self._vals or {}, **{k: v})
+            return v
+
+        def read_p(self):
+            return self._rd('p')
+
+        def write_p(self, v):
+            return self._wr('p', v)
+
+        def read_i(self):
+            return self._rd('i')
+
+        def write_i(self, v):
+            return self._wr('i', v)
+
+        def read_d(self):
+            return self._rd('d')
+
+        def write_d(self, v):
+            return self._wr('d', v)
+    return [(Combined, {'p': 'pid_p', 'i': 'pid_i', 'd': 'pid_d'}), (PerMember, {'p': 'p', 'i': 'i', 'd': 'd'})]
+
+
+def gen_struct(tier, rng):
+    """struct parameter with 3 members, with combined struct methods and with per-member methods: random histories (length 10) of
+    whole-struct write / read, single-member write / read, driver-side assignment of a member or of the struct, each optionally with a
+    scripted failure of one member access"""
+    import types
+    from bounded import nodelib
+    for (cls, attrs) in _struct_classes():
+        for h in range(30 if tier == 'quick' else 300):
+            srv = types.SimpleNamespace(dispatcher=types.SimpleNamespace(announce_update=lambda m, p: None),
+                                        secnode=types.SimpleNamespace(equipment_id='verif', name='node'))
+            m = cls.__new__(cls)
+            m.__init__('m', nodelib.quiet_logger(), {'description': ''}, srv)
+            m.write_ctrlpars({'p': 1.0, 'i': 2.0, 'd': 3.0})
+            for step in range(10):
+                # (with combined struct methods the driver reports changes through the struct, not through single members)
+                kind = rng.choice(['wstruct', 'rstruct', 'wmember', 'rmember'] + (['drv_member'] if cls.__name__ == 'PerMember' else ['drv_struct']))
+                k = rng.choice(['p', 'i', 'd'])
+                v = float(rng.randint(0, 9))
+                failing = rng.random() < 0.3
+                if cls.__name__ == 'Combined':
+                    m.fail = {'wstruct': 'write', 'rstruct': 'read'}.get(kind) if failing else None
+                else:
+                    m.fail = (('write' if kind.startswith('w') else 'read'), rng.choice(['p', 'i', 'd'])) if failing else None
+
+                def op(m=m, kind=kind, k=k, v=v, attrs=attrs):
+                    if kind == 'wstruct':
+                        return m.write_ctrlpars({'p': v, 'i': v + 1, 'd': v + 2})
+                    if kind == 'rstruct':
+                        return m.read_ctrlpars()
+                    if kind == 'wmember':
+                        return getattr(m, 'write_' + attrs[k])(v)
+                    if kind == 'rmember':
+                        return getattr(m, 'read_' + attrs[k])()
+                    if kind == 'drv_member':
+                        setattr(m, attrs[k], v)
+                        return None
+                    m.ctrlpars = {'p': v, 'i': v, 'd': v}
+                    return None
+                yield dict(label=f'{cls.__name__} history {h} step {step}: {kind} {k}={v} fail={m.fail}', self=None, args={}, call=op,
+                           ghosts={'module': m, 'struct_name': 'ctrlpars', 'member_attrs': attrs,
+                                   'touched': k if kind in ('wmember', 'rmember', 'drv_member') else None})
+                m.fail = None
+
+
+GENS = {'StructParam.__set_name__': gen_struct, 'Module.checkLimits': gen_checkLimits, 'Dispatcher.handle_change': gen_change}
